@@ -20,7 +20,7 @@ TRANSLATED = {
     'C08': '_estimate_waiting_times, _estimate_transition_times (msm), _get_cummat, _estimate_times (list and histogram form), StateTraj.state_to_idx, the public estimate_waiting_times / estimate_transition_times / estimate_paths of msm/timescales.py',
     'C13': '_intersect, _intersect_array, _compare_trajs_symmetric, _compare_trajs_directed, _compare_discretization (both methods), the public compare_discretization (all three method cases)',
     'C12': 'the public wrappers that branch on numba.config.DISABLE_JIT (md.dynamical_coring, md.estimate_waiting_times / estimate_paths, _compare_discretization, _estimate_markov_model, _estimate_times): proved equal to the flag-free model for BOTH values of the flag',
-    'C20': 'runningmean', 'C16': 'open_limits, swapcols, opentxt (pandas branch: usecols order restored), opentxt_limits, openmicrostates', 'C15': 'unique, shift_data, rename_by_index, rename_by_population (list-of-arrays form)',
+    'C20': 'runningmean, gaussian_filter (1-d / 2-d / 3-d form; the scipy filters as oracles named after their keyword arguments)', 'C16': 'open_limits, swapcols, opentxt (pandas branch: usecols order restored), opentxt_limits, openmicrostates', 'C15': 'unique, shift_data, rename_by_index, rename_by_population (list-of-arrays form)',
     'C02': 'StateTraj.__init__, the StateTraj accessors, LumpedStateTraj.__init__ and its accessors, the relabelling utilities they use', 'C17': 'StateTraj.__init__, rename_by_index, shift_data',
     'C14': 'is_quadratic, is_transition_matrix, is_ergodic, is_fuzzy_ergodic, ergodic_mask',
     'C04': 'equilibrium_population (LAPACK eigen-solver as an oracle with the contract v M = v, v != 0), is_ergodic, ergodic_mask, row_normalize_matrix', 'C03': 'LumpedStateTraj.__init__, LumpedStateTraj.estimate_markov_model, LumpedStateTraj._estimate_markov_model (Hummer-Szabo projection), row_normalize_matrix, is_ergodic',
